@@ -36,6 +36,7 @@ type World struct {
 	perPathPkgs   []*ssa.Package
 	runtimeErrorString types.Type
 	extCache      sync.Map // *ssa.Function -> externalFn (or nil marker)
+	fnInfo        sync.Map // *ssa.Function -> *funcInfo
 	sentinelMu    sync.Mutex
 	LoadTime      time.Duration
 	FileHashes    map[string]string
@@ -209,12 +210,23 @@ func (w *World) newInterpreter(cfg *Config, ps *pathState) *interpreter {
 }
 
 // runPath executes the harness once along the given decision prefix.
-func (w *World) runPath(ex *Explorer, solver *Solver, prefix []Decision) (pr *pathResult) {
+func (w *World) runPath(ex *Explorer, solver *Solver, prefix []Decision, model map[string]uint64) (pr *pathResult) {
 	solver.Reset()
 	ps := &pathState{
 		ex: ex, pool: newTermPool(), solver: solver, prefix: prefix,
 		known: map[*Term]bool{}, reached: map[string]bool{}, covers: map[string]int{}, ghost: map[string]int64{},
 		harness: ex.cfg.Harness,
+	}
+	if model != nil {
+		ps.initModel = model
+		ps.ev = newEvaluator()
+		ps.pool.onVar = func(t *Term) {
+			if ps.ev != nil {
+				if v, ok := ps.initModel[t.name]; ok {
+					ps.ev.vars[t] = v
+				}
+			}
+		}
 	}
 	i := w.newInterpreter(&ex.cfg, ps)
 	pr = &pathResult{ps: ps, status: "ok"}
@@ -291,6 +303,7 @@ func (w *World) runPath(ex *Explorer, solver *Solver, prefix []Decision) (pr *pa
 		}
 		i.sched.killAll()
 		pr.pending = ps.pending
+		pr.pendingModels = ps.pendingModels
 		pr.funcs = i.funcs
 		pr.stubs = i.stubs
 		pr.steps = i.steps
@@ -302,6 +315,9 @@ func (w *World) runPath(ex *Explorer, solver *Solver, prefix []Decision) (pr *pa
 		}
 	}
 	i.initing = false
+	if os.Getenv("VERIF_TIMING") != "" && len(prefix) == 0 {
+		fmt.Fprintf(os.Stderr, "per-path init: %d instructions\n", i.steps)
+	}
 	i.steps = 0
 	call(i, nil, token.NoPos, hfn, nil)
 	return
